@@ -33,6 +33,13 @@ def plan(tier, seed):
             'nproc': 2, 'pool_soft': ps, 'job_soft': js, 'eff_soft': eff, 'dur': eff + 4.6,
             'catch': True, 'expired': True, 'pool_hard': None, 'job_hard': None,
             'next_dur': 0.3, 'next_soft': None, 'close_while_running': True}})
+    # finished in time, slow result callback: the limit's instant passes while
+    # the callback runs and the worker is busy with the next (unlimited) job
+    for nproc in (1, 2) if tier == 'quick' else (1, 1, 2, 3):
+        specs.append({'lane': 'real', 'timeout': 110, 'params': {
+            'nproc': nproc, 'pool_soft': None, 'job_soft': 3.0, 'eff_soft': 3.0, 'dur': 0.2,
+            'catch': True, 'expired': False, 'pool_hard': None, 'job_hard': None,
+            'next_dur': 7.0, 'next_soft': None, 'slow_cb': 6.0}})
     return specs
 
 
@@ -45,7 +52,7 @@ def run_spec(spec, rec):
     rec.case()
     rec.count('real:scenarios')
     attrs = {'lane': 'real', 'catch': p['catch'], 'expired': p['expired'], 'nproc': p['nproc'],
-             'closing': bool(p.get('close_while_running')),
+             'closing': bool(p.get('close_while_running')), 'slow_callback': bool(p.get('slow_cb')),
              'pool_soft': p['pool_soft'] is not None, 'job_soft': p['job_soft'] is not None}
     if r['status'] != 'ok':
         rec.violation('host_process_died' if r['status'] == 'died' else 'pool_hung_with_soft_limit',
